@@ -489,11 +489,37 @@ fn run_cli(argv: &[Vec<u8>]) -> (i64, String) {
     let bin = std::env::var("JULIAN_BIN").unwrap_or_else(|_| "/verif/build/cli/debug/julian".into());
     loop {
         let before = today_jdn();
-        let out = std::process::Command::new(&bin)
+        // standard input is not part of the command's interface: it is given a few lines that would
+        // be valid arguments, and the answers must be what they are with nothing to read
+        // the name the command is started under is part of its argument vector too: most runs use
+        // the path of the binary, some a name that is empty, not UTF-8, or unrelated (chosen by the
+        // arguments, so that a replay starts it the same way)
+        let mut cmd = std::process::Command::new(&bin);
+        {
+            use std::os::unix::process::CommandExt;
+            let h = argv.iter().flatten().fold(argv.len() as u64, |h, b| h.wrapping_mul(1099511628211).wrapping_add(u64::from(*b)));
+            match h % 16 {
+                0 => { cmd.arg0(std::ffi::OsString::from_vec(b"\xffjulian".to_vec())); }
+                1 => { cmd.arg0(std::ffi::OsString::from_vec(b"/opt/\xe9t\xe9/julian".to_vec())); }
+                2 => { cmd.arg0(""); }
+                3 => { cmd.arg0("-h"); }
+                4 => { cmd.arg0("x".repeat(5000)); }
+                _ => {}
+            }
+        }
+        let mut child = cmd
             .args(argv.iter().map(|a| std::ffi::OsString::from_vec(a.clone())))
             .env_remove("RUST_BACKTRACE")
-            .output()
+            .stdin(std::process::Stdio::piped())
+            .stdout(std::process::Stdio::piped())
+            .stderr(std::process::Stdio::piped())
+            .spawn()
             .expect("spawning the julian binary");
+        if let Some(mut si) = child.stdin.take() {
+            use std::io::Write;
+            let _ = si.write_all(b"2299161 1582-10-04\n-j 2440588\n");
+        }
+        let out = child.wait_with_output().expect("waiting for the julian binary");
         let after = today_jdn();
         if before != after {
             continue;
